@@ -10,6 +10,16 @@ Four parts, each with its own case kind and signatures:
           side PDU rules + byte-identical reassembly; fault sequences between good messages.
   avctp   harness-side spec-conformant AVCTP sender -> avctp.MessageAssembler; same oracles.
   stream  two devices as A2DP source and sink; operation lists against the AVDTP state diagram.
+
+Extensions (same case kinds, same oracles, new generator families with their own floors):
+
+  sdp_history   clients close / reopen their SDP channel, drop and re-establish their link, abandon a query
+                half-way, while another client is between two PDUs of a continued answer (kind 'sdp', optional
+                per-client keys 'pre', 'abandon', 'leave').
+  sdp_handles   up to 64 * (handles per response) matching records: the handle list itself needs 1..64 responses.
+  avdtp_peer    the AVDTP assembler fed by a harness-side sender that fragments as another stack may (kind 'avdtp_peer').
+  stream_multi  differing INT/ACP stream end point identifiers, two streams, operations without a pause between
+                them (kind 'stream', optional keys 'pads', 'nstreams', 'cross', operations [name, mode, stream, fast]).
 """
 
 from __future__ import annotations
@@ -39,7 +49,24 @@ RULE = (
     'start/single only) and fragment sizes 1..MTU; non-trivial = >=2 fragments or a message following a '
     'fault. stream: lists of configure/open/start/suspend/close/abort (API call, or raw signalling command '
     'when the model says the operation is illegal) from the source side; non-trivial = history with an '
-    'illegal operation or >=3 legal transitions. distinct by the complete case.'
+    'illegal operation or >=3 legal transitions. distinct by the complete case. '
+    'EXTENSIONS. sdp_history: the same worlds, 1..3 clients, client 0 starts with an answer of 2..34 responses over a '
+    'slow HCI; every client has, per query, an optional operation before it (reopen = close the SDP channel and open '
+    'a new one on the same link; rejoin = drop the ACL link, connect again, new sdp.Client) and an optional point '
+    '(after r response round trips) at which the caller abandons the query (task cancelled; the next query runs on '
+    'the same channel or after a reopen), and after its last query it may close its SDP channel or drop its link '
+    'while the others are between two PDUs of a continued answer; every query that was not abandoned is judged by '
+    'the same model. sdp_handles: 0..64*h (+ non-matching ones in between, up to ~1150 records) records that all '
+    'match, h = handles per response at client MTU 48..100, counts k*h+{-1,0,1} for k in 1..64: the handle list of '
+    'search_services itself needs up to 64 responses; optionally a second client with another MTU asks the same at '
+    'the same time, and a second query follows on the same channel. avdtp_peer: the AVDTP assembler fed by a '
+    'harness-side sender that fragments like another stack may (start packet with 0..MTU-3 payload bytes, '
+    'continue/end packets with 1..MTU-1, messages that would fit in one packet fragmented anyway, up to 255 packets), '
+    'same fault sequences and oracle as avdtp. stream_multi: 1..2 streams between the two devices, 0..2 unused '
+    'stream end points registered in front of the used ones on either side and crossed pairing (INT and ACP SEIDs '
+    'differ; in the first family both are always 1), operations carry the stream they act on, one in three is '
+    'followed by the next with no pause; after each pause every stream must be, on both sides, where the state '
+    'diagram has it (the one operated on AND the other one).'
 )
 ASSUMPTIONS = [
     'SDP: attribute-id lists are ascending and non-overlapping (Core Vol 3 Part B 4.6.1), ids are unique '
@@ -60,6 +87,16 @@ ASSUMPTIONS = [
     'stream: start in CONFIGURED may either be refused or auto-open (documented API behaviour); abort in '
     'IDLE may be refused or accepted; abort is issued through Stream.abort() when the class has it, '
     'otherwise through the stream\'s remote endpoint proxy (the only initiating-side API)',
+    'SDP histories: a query the caller abandoned is not judged (nor is what leaving raises); a client that reopens '
+    'its channel or reconnects its link must be able to (sdp/reopen_failed, sdp/rejoin_failed) and every '
+    'transaction that is not abandoned - of that client and of all others - must return the exact answer. ACL '
+    'connection set-ups of re-joining clients are serialised by the harness (colliding set-ups are C06\'s subject)',
+    'AVDTP peer sender: AVDTP 8.4 puts no lower bound on the payload of a start, continue or end packet and does not '
+    'forbid fragmenting a short message; continue/end packets of the harness carry at least one byte',
+    'stream_multi: when an operation is followed by the next with no pause only the initiating side is compared '
+    'right away (the acceptor is compared at the next pause); a legal procedure issued right after the previous '
+    'call returned must still be accepted (the API is awaited call by call). An operation on one stream must leave '
+    'the other stream in the state the diagram has it in, on both sides',
 ]
 SHRINK_KEYS = ('ops', 'records', 'clients', 'queries', 'attrs', 'msgs')
 
@@ -395,7 +432,7 @@ ATTR_IDS = [0x0000, 0x0001, 0x0001, 0x0002, 0x0003, 0x0004, 0x0005, 0x0006, 0x00
 HANDLES = [0x00010000, 0x00010001, 0x00010002, 0x00010003, 0x7FFFFFFF, 0x80000000, 0xFFFFFFFF, 0x00000000]
 
 
-def sdp_strategy():
+def sdp_strategy(history: bool = False):
     attr_id = st.one_of(st.sampled_from(ATTR_IDS), st.integers(0, 0xFFFF))
     record = st.tuples(
         st.one_of(st.sampled_from(HANDLES), st.integers(0x10000, 0x1FFFF)),
@@ -427,18 +464,44 @@ def sdp_strategy():
             'join': st.sampled_from([None, None, None, 0, 1, 3, 8, 15, 30, 60]),
         }
     )
-    return st.fixed_dictionaries(
-        {
-            'scenario': st.sampled_from(['general'] * 5 + ['many_matches']),
-            'records': st.one_of(st.lists(record, max_size=12), st.lists(record, max_size=5)),
-            'common': st.one_of(st.none(), st.none(), st.tuples(st.integers(0, 19), st.sampled_from([2, 4, 16]))),
-            'server_mtu': mtu_strategy(),
-            'server_delays': st.lists(st.sampled_from([0, 0, 0, 1, 7]), max_size=3),
-            'clients': st.one_of(st.lists(client, min_size=1, max_size=1), st.lists(client, min_size=2, max_size=3)),
-            'pad': st.tuples(st.sampled_from([1, 1, 2, 2, 3, 5, 17, 63, 64, 64]), st.sampled_from([-1, 0, 1]),
-                             st.integers(0, 255)),
-        }
-    )
+    fields = {
+        'scenario': st.sampled_from(['general'] * 5 + ['many_matches']),
+        'records': st.one_of(st.lists(record, max_size=12), st.lists(record, max_size=5)),
+        'common': st.one_of(st.none(), st.none(), st.tuples(st.integers(0, 19), st.sampled_from([2, 4, 16]))),
+        'server_mtu': mtu_strategy(),
+        'server_delays': st.lists(st.sampled_from([0, 0, 0, 1, 7]), max_size=3),
+        'clients': st.one_of(st.lists(client, min_size=1, max_size=1), st.lists(client, min_size=2, max_size=3)),
+        'pad': st.tuples(st.sampled_from([1, 1, 2, 2, 3, 5, 17, 63, 64, 64]), st.sampled_from([-1, 0, 1]),
+                         st.integers(0, 255)),
+    }
+    if history:
+        # histories: the set of connected clients changes while transactions are running. Per client and query
+        # an operation BEFORE the query (reopen = close the SDP channel and open a new one on the same link,
+        # rejoin = drop the ACL link, connect again, new sdp.Client), a time limit after which the query is
+        # abandoned (task cancelled, the next query uses the same channel), and what the client does after its
+        # last query (close the SDP channel / drop the link) while the others go on.
+        pre = st.one_of(st.none(), st.none(), st.tuples(st.sampled_from(['reopen', 'reopen', 'rejoin']),
+                                                        st.sampled_from([0, 0, 1, 5])))
+        # (abandon: the number of response round trips after which the caller gives up; made milliseconds below)
+        give_up = st.one_of(st.none(), st.none(), st.none(), st.sampled_from([0, 1, 1, 2, 3, 5, 8, 13, 30]))
+        hist = st.fixed_dictionaries(
+            {
+                'pre': st.tuples(pre, pre, pre, pre),
+                'abandon': st.tuples(give_up, give_up, give_up, give_up),
+                'leave': st.one_of(st.none(), st.tuples(st.sampled_from(['close', 'drop']),
+                                                        st.sampled_from([0, 1, 2, 5, 9, 14, 20, 33, 60])),
+                                   st.tuples(st.sampled_from(['close', 'drop']),
+                                             st.sampled_from([0, 1, 2, 5, 9, 14, 20, 33, 60]))),
+            }
+        )
+        fields.update(
+            scenario=st.just('history'),
+            clients=st.one_of(st.lists(client, min_size=2, max_size=3), st.lists(client, min_size=2, max_size=2),
+                              st.lists(client, min_size=1, max_size=1)),
+            pad=st.tuples(st.sampled_from([5, 9, 9, 17, 17, 33]), st.sampled_from([-1, 0, 1]), st.integers(0, 255)),
+            hist=st.lists(hist, min_size=3, max_size=3),
+        )
+    return st.fixed_dictionaries(fields)
 
 
 def _present_idents(record) -> list:
@@ -506,9 +569,15 @@ def sdp_finalize(drawn) -> dict:
     """Drawn values -> explicit plain-data case (records, per-client MTU and queries)."""
     records, seen = [], set()
     many = drawn.get('scenario') == 'many_matches'
+    history = drawn.get('scenario') == 'history'
     seed = drawn['pad'][2]
     common = drawn['common']
     drawn_records = list(drawn['records'])
+    if history:
+        # at least one record, and one UUID that client 0's first (long, continued) answer can be asked by
+        common = common or (seed % 20, (2, 4, 16)[seed % 3])
+        if not drawn_records:
+            drawn_records.append((0x20000, []))
     if many:
         # 10..12 records that all contain one UUID, a small client MTU: the handle list itself
         # needs continuation responses
@@ -526,7 +595,7 @@ def sdp_finalize(drawn) -> dict:
                 continue
             ids.add(a)
             alist.append([a, ['i', handle, 4] if a == 0 else normalize(v)])
-        if common is not None and (many or 1 not in ids):
+        if common is not None and (many or history or 1 not in ids):
             ident, w = common
             alist = [e for e in alist if e[0] != 1]
             alist.append([1, ['q', [['u', ident, uuid_width(ident, w)]]]])
@@ -557,6 +626,40 @@ def sdp_finalize(drawn) -> dict:
         pattern = [[common[0], uuid_width(common[0], (2, 4, 16)[(seed >> 2) % 3])]]
         first = ['ss', pattern] if seed % 4 else ['sa', pattern, [[0, 0xFFFF]]]
         c0['queries'] = [first] + c0['queries'][: 3]
+    if history:
+        # client 0 starts with an answer that needs several responses over a slow HCI, so that the others'
+        # closes / reopens / link drops fall between two of its PDUs
+        c0 = clients[0]
+        c0['mtu'] = 48 + (seed * 7) % 200
+        d0 = (1, 3, 7)[seed % 3]
+        c0['delays'] = [d0]
+        c0['join'] = None
+        c0['gaps'] = []
+        pattern = [[common[0], uuid_width(common[0], (2, 4, 16)[(seed >> 2) % 3])]]
+        first = ['ga', records[seed % len(records)]['handle'], [[0, 0xFFFF]]] if seed % 3 == 0 else \
+            ['sa', pattern, [[0, 0xFFFF]]]
+        c0['queries'] = [first] + c0['queries'][: 3]
+        for i, (c, h) in enumerate(zip(clients, drawn['hist'])):
+            n = len(c['queries'])
+            pre = [list(p) if p else None for p in h['pre'][:n]]
+            # everybody's traffic takes (virtual) time, so that "after r round trips" is a point inside a query
+            if not any(c['delays']):
+                c['delays'] = [1]
+            d = max(c['delays'])
+            abandon = [None if r is None else (2 * r + 1) * d for r in h['abandon'][:n]]
+            if i == 0 and abandon[0] is None and seed % 3 == 1:
+                abandon[0] = (2 * (1 + seed % 7) + 1) * d  # the long answer itself is given up half-way
+            if i:
+                # the others act 1..3 of client 0's response round trips apart: inside its continued answer
+                c['gaps'] = [(1 + g % 3) * 2 * d0 for g in (c['gaps'] or [1])]
+                if c.get('join') is not None:
+                    c['join'] = (1 + c['join'] % 4) * 2 * d0
+            if any(pre):
+                c['pre'] = pre
+            if any(a is not None for a in abandon):
+                c['abandon'] = abandon
+            if h['leave']:
+                c['leave'] = [h['leave'][0], h['leave'][1] if i == 0 else (h['leave'][1] % 4) * 2 * d0]
     case = {'kind': 'sdp', 'records': records, 'server_mtu': drawn['server_mtu'],
             'server_delays': list(drawn['server_delays']), 'clients': clients}
     _cap_mtus(case)
@@ -564,6 +667,57 @@ def sdp_finalize(drawn) -> dict:
     _cap_mtus(case)
     # the server's MTU (what clients may send) is never below the largest request of the case
     case['server_mtu'] = max([case['server_mtu']] + [_request_size(q) for c in clients for q in c['queries']])
+    return case
+
+
+def sdp_handles_strategy():
+    """Record COUNTS: so many records match that the handle list of a service search itself needs 1..64 responses
+    (the random record sets stop at 12 records = 2 responses), counts at k * (handles per response) + {-1, 0, 1}."""
+    return st.fixed_dictionaries(
+        {
+            'mtu': st.sampled_from([48, 48, 49, 51, 52, 55, 59, 63, 100]),
+            'k': st.sampled_from([1, 2, 3, 3, 4, 7, 20, 63, 64, 64]),
+            'delta': st.sampled_from([-1, 0, 0, 1]),
+            'other': st.integers(0, 3),
+            'ident': st.integers(0, 19),
+            'widths': st.tuples(st.sampled_from([2, 4, 16]), st.sampled_from([2, 4, 16])),
+            'follow': st.sampled_from(['none', 'again', 'absent', 'attributes']),
+            'second': st.one_of(st.none(), st.sampled_from([48, 50, 60, 672])),
+            'delays': st.lists(st.sampled_from([0, 0, 1, 3]), max_size=2),
+            'join': st.sampled_from([None, None, 0, 2, 9]),
+        }
+    ).map(sdp_handles_finalize)
+
+
+def sdp_handles_finalize(d) -> dict:
+    mtu, ident = d['mtu'], d['ident']
+    per = (mtu - 11) // 4
+    k = min(d['k'], continuation_limit())
+    count = max(0, k * per + (min(d['delta'], 0) if k == continuation_limit() else d['delta']))
+    other = (ident + 7) % 20
+    records = []
+    for i in range(count):
+        records.append({'handle': 0x30000 + len(records),
+                        'attrs': [[1, ['q', [['u', ident, uuid_width(ident, d['widths'][0])]]]]]})
+        if d['other'] and i % (d['other'] + 1) == 0:
+            # a record in between that does not match
+            records.append({'handle': 0x30000 + len(records),
+                            'attrs': [[1, ['q', [['u', other, uuid_width(other, d['widths'][0])]]]]]})
+    pattern = [[ident, uuid_width(ident, d['widths'][1])]]
+    queries = [['ss', pattern]]
+    if d['follow'] == 'again':
+        queries.append(['ss', pattern])
+    elif d['follow'] == 'absent':
+        queries.append(['ss', pattern + [[ABSENT_IDENTS[0], 2]]])
+    elif d['follow'] == 'attributes' and records:
+        queries.append(['ga', records[-1]['handle'], [[0, 0xFFFF]]])
+    clients = [{'mtu': mtu, 'queries': queries, 'gaps': [], 'delays': list(d['delays']), 'join': None}]
+    if d['second'] is not None:
+        # a second client asks the same question at the same time and gets other numbers of handles per response
+        mtu2 = max(d['second'], -(-4 * count // continuation_limit()) + 12)
+        clients.append({'mtu': mtu2, 'queries': [['ss', pattern]], 'gaps': [], 'delays': [], 'join': d['join']})
+    case = {'kind': 'sdp', 'records': records, 'server_mtu': 672, 'server_delays': [], 'clients': clients}
+    case['server_mtu'] = max([48] + [_request_size(q) for c in clients for q in c['queries']])
     return case
 
 
@@ -670,7 +824,16 @@ def run_sdp_case(ctx, case) -> None:
     def fail(sig, what):
         ctx.fail(sig, what, case)
 
+    hist_labels: set = set()
+    rx = [0] * n  # responses received for the current query of client i
+    need_now = [0] * n  # responses the model says the current query of client i needs (0 = no query running)
+
+    def others_mid_continuation(i) -> bool:
+        return any(k != i and 1 <= rx[k] < need_now[k] for k in range(n))
+
     async def main():
+        from bumble.core import PhysicalTransport
+
         delays = [list(case.get('server_delays') or [])] + [list(c.get('delays') or []) for c in clients]
         w = world.World(n + 1, classic=True, delays=[d or [0] for d in delays], geometry=ACL_GEOMETRY)
         await w.power_on()
@@ -680,35 +843,78 @@ def run_sdp_case(ctx, case) -> None:
             r['handle']: [ServiceAttribute(a, build_de(v)) for a, v in r['attrs']] for r in records
         }
         sdp_clients = []
+        conns = []
+        link_lock = asyncio.Lock()  # (simultaneous ACL connection set-up is C06's subject, not SDP's)
 
-        async def open_channel(client, mtu):
+        async def open_channel(client, mtu, i):
             await client.connect()
             # observe response PDU sizes (noted, not asserted)
             inner = client.channel.sink
 
-            def sink(pdu, inner=inner, mtu=mtu):
+            def sink(pdu, inner=inner, mtu=mtu, i=i):
                 if len(pdu) > mtu:
                     state['max_pdu_over'] = max(state['max_pdu_over'], len(pdu) - mtu)
+                rx[i] += 1
                 inner(pdu)
 
             client.channel.sink = sink
 
         for i, c in enumerate(clients):
             conn, _ = await w.connect_classic(i + 1, 0)
+            conns.append(conn)
             client = sdp.Client(conn, mtu=int(c['mtu']))
             sdp_clients.append(client)
             if c.get('join') is None:
-                await open_channel(client, int(c['mtu']))
+                await open_channel(client, int(c['mtu']), i)
         state['phase'] = 'queries'
 
+        async def history_op(i, op):
+            """reopen: new SDP channel on the same link; rejoin: new ACL link and new sdp.Client."""
+            name, gap = op[0], op[1]
+            mid = others_mid_continuation(i)
+            if name == 'reopen':
+                hist_labels.add('sdp:reopen')
+                if mid:
+                    hist_labels.add('sdp:peer_reopened_mid_continuation')
+                await sdp_clients[i].disconnect()
+                if gap:
+                    await asyncio.sleep(gap * 0.001)
+            else:
+                hist_labels.add('sdp:rejoin')
+                if mid:
+                    hist_labels.add('sdp:peer_left_mid_continuation')
+                await conns[i].disconnect()
+                if gap:
+                    await asyncio.sleep(gap * 0.001)
+                async with link_lock:
+                    conns[i] = await w[i + 1].device.connect(
+                        w[0].controller.public_address, transport=PhysicalTransport.BR_EDR
+                    )
+                sdp_clients[i] = sdp.Client(conns[i], mtu=int(clients[i]['mtu']))
+            await open_channel(sdp_clients[i], int(clients[i]['mtu']), i)
+
+        async def one_query(client, q):
+            if q[0] == 'ss':
+                r = await client.search_services([build_uuid(i_, w_) for i_, w_ in q[1]])
+                return ('ok', list(r))
+            if q[0] == 'ga':
+                r = await client.get_attributes(q[1], [tuple(e) if isinstance(e, list) else e for e in q[2]])
+                return ('ok', [[a.id, canon_de(a.value)] for a in r])
+            r = await client.search_attributes(
+                [build_uuid(i_, w_) for i_, w_ in q[1]],
+                [tuple(e) if isinstance(e, list) else e for e in q[2]],
+            )
+            return ('ok', [[[a.id, canon_de(a.value)] for a in lst] for lst in r])
+
         async def one_client(i):
-            client = sdp_clients[i]
             gaps = clients[i].get('gaps') or []
+            pre = clients[i].get('pre') or []
+            abandon = clients[i].get('abandon') or []
             if clients[i].get('join') is not None:
                 # a late comer: opens its SDP channel while the others are querying
                 await asyncio.sleep(clients[i]['join'] * 0.001)
                 try:
-                    await open_channel(client, int(clients[i]['mtu']))
+                    await open_channel(sdp_clients[i], int(clients[i]['mtu']), i)
                 except asyncio.CancelledError:
                     raise
                 except Exception as e:  # noqa: BLE001
@@ -720,23 +926,64 @@ def run_sdp_case(ctx, case) -> None:
                     g = gaps[j % len(gaps)]
                     if g:
                         await asyncio.sleep(g * 0.001)
+                if j < len(pre) and pre[j]:
+                    try:
+                        await history_op(i, pre[j])
+                    except asyncio.CancelledError:
+                        raise
+                    except Exception as e:  # noqa: BLE001 - coming back must work
+                        for j2 in range(j, len(clients[i]['queries'])):
+                            results[i][j2] = ('exc', type(e).__name__, f'{pre[j][0]}: ' + str(e)[:90])
+                        return
+                    if j and results[i][j - 1] and results[i][j - 1][0] == 'abandoned':
+                        hist_labels.add('sdp:reopen_after_abandoned')
+                limit = abandon[j] if j < len(abandon) else None
+                kind_, _exp, size_ = model_answer(records, q)
+                rx[i], need_now[i] = 0, responses_needed(kind_, size_, clients[i]['mtu'])
                 try:
-                    if q[0] == 'ss':
-                        r = await client.search_services([build_uuid(i_, w_) for i_, w_ in q[1]])
-                        results[i][j] = ('ok', list(r))
-                    elif q[0] == 'ga':
-                        r = await client.get_attributes(q[1], [tuple(e) if isinstance(e, list) else e for e in q[2]])
-                        results[i][j] = ('ok', [[a.id, canon_de(a.value)] for a in r])
+                    if limit is None:
+                        results[i][j] = await one_query(sdp_clients[i], q)
                     else:
-                        r = await client.search_attributes(
-                            [build_uuid(i_, w_) for i_, w_ in q[1]],
-                            [tuple(e) if isinstance(e, list) else e for e in q[2]],
-                        )
-                        results[i][j] = ('ok', [[[a.id, canon_de(a.value)] for a in lst] for lst in r])
+                        task = asyncio.ensure_future(one_query(sdp_clients[i], q))
+                        done, _pending = await asyncio.wait([task], timeout=limit * 0.001)
+                        if done:
+                            results[i][j] = task.result()
+                        else:
+                            # the caller gives up (as asyncio.wait_for / a cancelled task would)
+                            hist_labels.add('sdp:abandoned_mid_continuation' if 1 <= rx[i] < need_now[i]
+                                            else 'sdp:abandoned')
+                            task.cancel()
+                            try:
+                                await task
+                            except asyncio.CancelledError:
+                                pass
+                            except Exception:  # noqa: BLE001 - the abandoned query's own fate is not judged
+                                pass
+                            results[i][j] = ('abandoned',)
                 except asyncio.CancelledError:
                     raise
                 except Exception as e:  # noqa: BLE001 - judged against the model below
                     results[i][j] = ('exc', type(e).__name__, str(e)[:100])
+                finally:
+                    need_now[i] = 0
+                if j and results[i][j - 1] and results[i][j - 1][0] == 'abandoned' and not (j < len(pre) and pre[j]):
+                    hist_labels.add('sdp:query_after_abandoned_same_channel')
+            leave = clients[i].get('leave')
+            if leave:
+                if leave[1]:
+                    await asyncio.sleep(leave[1] * 0.001)
+                hist_labels.add(f'sdp:leave_{leave[0]}')
+                if others_mid_continuation(i):
+                    hist_labels.add('sdp:peer_left_mid_continuation')
+                try:
+                    if leave[0] == 'close':
+                        await sdp_clients[i].disconnect()
+                    else:
+                        await conns[i].disconnect()
+                except asyncio.CancelledError:
+                    raise
+                except Exception:  # noqa: BLE001 - leaving is not a transaction; the others' answers are judged
+                    hist_labels.add('sdp:leave_raised')
 
         await asyncio.gather(*[one_client(i) for i in range(n)])
         state['phase'] = 'done'
@@ -751,10 +998,12 @@ def run_sdp_case(ctx, case) -> None:
             outcome = 'horizon'
         except vloop.BudgetExceeded:
             outcome = 'budget'
-        labels = {f'sdp:clients:{n}'}
+        labels = {f'sdp:clients:{n}'} | hist_labels
         if any(c.get('join') is not None for c in clients):
             labels.add('sdp:late_joiner')
-        nontrivial = n >= 2
+        if any(c.get('pre') or c.get('abandon') or c.get('leave') for c in clients):
+            labels.add('sdp:history')
+        nontrivial = n >= 2 or bool(hist_labels)
         results.loop_errors = list(loop.errors)
         if state['phase'] == 'setup':
             if outcome == 'budget':
@@ -777,6 +1026,16 @@ def run_sdp_case(ctx, case) -> None:
                     nontrivial = True
                 if need >= continuation_limit():
                     labels.add('sdp:at_continuation_limit')
+                if kind == 'ss':
+                    per = (c['mtu'] - 11) // 4
+                    if need >= 3:
+                        labels.add('sdp:ss_3plus_responses')
+                    if need >= continuation_limit():
+                        labels.add('sdp:ss_at_continuation_limit')
+                    if size // 4 >= per - 1 and (size // 4) % per in (0, 1, per - 1):
+                        labels.add('sdp:ss_handles_at_capacity_multiple')
+                    if len(records) > 12:
+                        labels.add('sdp:more_than_12_records')
                 if kind != 'ss' and size and need >= 1 and size % (c['mtu'] - 9) in (0, 1, c['mtu'] - 10):
                     labels.add('sdp:size_at_capacity_multiple')
                 if kind in ('ss', 'sa'):
@@ -816,6 +1075,13 @@ def _judge_sdp(ctx, fail, multi, outcome, i, j, q, kind, exp, results, clients, 
             fail(f'sdp/no_answer/carrier/{site}', what)
         else:
             fail(f'sdp/no_answer/{multi}', what)
+        return True
+    if r[0] == 'abandoned':
+        return False  # the caller gave up on this one; the transactions after it are judged
+    if r[0] == 'exc' and r[2].startswith(('reopen: ', 'rejoin: ')):
+        op = r[2].split(':')[0]
+        fail(f'sdp/{op}_failed/{r[1]}/{multi}',
+             f'{who}: the client could not come back ({op}) before this query: {r[1]}({r[2]})')
         return True
     if r[0] == 'exc':
         if kind == 'ga' and exp is None:
@@ -987,6 +1253,8 @@ def av_strategy(proto: str):
 def _av_message(proto: str, mtu: int, m) -> dict:
     """Explicit message description. AVDTP: fragment capacity MTU-3 (sender's choice); AVCTP: the
     harness sender's chunk list (start packet carries up to MTU-4 data bytes, others up to MTU-1)."""
+    if proto == 'avdtp_peer':
+        return _avdtp_peer_message(mtu, m)
     size = m['size']
     if proto == 'avdtp':
         frag_cap, single_max, max_len = mtu - 3, mtu - 2, 255 * (mtu - 3)
@@ -1062,6 +1330,63 @@ def _av_message(proto: str, mtu: int, m) -> dict:
             else:
                 chunks = None
             break
+    out['chunks'] = chunks
+    return out
+
+
+def _avdtp_peer_message(mtu: int, m) -> dict:
+    """A message as ANOTHER stack's AVDTP sender may fragment it: the start packet carries 0..MTU-3 payload bytes,
+    continue/end packets 1..MTU-1, any split (Bumble's own sender always fills MTU-3 bytes per packet)."""
+    first_cap, rest_cap, single_max = mtu - 3, mtu - 1, mtu - 2
+    max_len = first_cap + 254 * rest_cap
+    size = m['size']
+    if size[0] == 'edge':
+        length = max(0, single_max + size[1])
+    elif size[0] == 'k':
+        length = first_cap + (size[1] - 1) * rest_cap + size[2]
+    elif size[0] == 'frag':
+        k = max(2, size[1])
+        length = first_cap + (k - 2) * rest_cap + 1 + m['seed'] % max(1, rest_cap - 1)
+    elif size[0] == 'single':
+        length = m['seed'] % (single_max + 1)
+    else:
+        length = size[1]
+    length = max(0, min(length, max_len))
+    kind = ['sec_cmd', 'sec_rsp', 'caps_rsp', 'generic'][m['a'] % 4]
+    if kind == 'sec_cmd' and length < 1:
+        kind = 'sec_rsp'
+    if kind == 'caps_rsp' and length == 1:
+        kind = 'sec_rsp'
+    out = {'label': m['label'], 'len': length, 'seed': m['seed'], 'msg': kind}
+    mode, sizes = m['chunking']
+    if size[0] == 'single' or length == 0 or (length <= single_max and size[0] != 'frag'
+                                              and (mode == 'max' or sizes[0] % 2 == 0)):
+        out['chunks'] = None  # single packet
+        return out
+    if mode == 'min' and length > 254:
+        mode = 'random'
+    chunks, remaining, i = [], length, 0
+    while remaining > 0 or len(chunks) < 2:
+        cap = first_cap if not chunks else rest_cap
+        if mode == 'max':
+            n = min(cap, remaining)
+        elif mode == 'min':
+            n = min(1, remaining)
+        else:
+            n = min(cap, remaining, 1 + (sizes[i % len(sizes)] - 1) % cap)
+        if not chunks and mode != 'max':
+            # a start packet may carry no payload byte at all (one case in five)
+            n = 0 if sizes[-1] % 5 == 0 else min(sizes[0] % (first_cap + 1), remaining - 1)
+        if chunks:
+            n = max(1, n)  # continue / end packets carry at least one byte
+        budget = 255 - len(chunks) - 1  # packets left after this one
+        if remaining - n > budget * rest_cap:
+            n = min(cap, remaining)
+        if not chunks and n >= remaining:
+            n = remaining - 1  # at least a start / end pair
+        chunks.append(n)
+        remaining -= n
+        i += 1
     out['chunks'] = chunks
     return out
 
@@ -1355,6 +1680,113 @@ def _judge_av(fail, proto, expected, delivered, fault, what_fault, situation, ex
     fail(f'{proto}/fault/order/{situation}', f'{what_fault}: messages delivered out of order{exc_note}')
 
 
+def avdtp_peer_pdus(m, mtu: int) -> list:
+    """The peer's AVDTP sender (AVDTP 8.4: single | start with NOSP, continue*, end), harness arithmetic only."""
+    sid, mtype = AVDTP_KINDS[m['msg']]
+    payload = avdtp_payload(m)
+    chunks = m.get('chunks')
+
+    def head(ptype):
+        return bytes([m['label'] << 4 | ptype << 2 | mtype])
+
+    if not chunks:
+        out = [head(0) + bytes([sid]) + payload]
+    else:
+        if sum(chunks) != len(payload) or not 2 <= len(chunks) <= 255 or any(n < 1 for n in chunks[1:]):
+            raise HarnessError(f'bad chunk list for {m!r}')
+        out, off = [], 0
+        for k, n in enumerate(chunks):
+            data = payload[off : off + n]
+            off += n
+            if k == 0:
+                out.append(head(1) + bytes([sid, len(chunks)]) + data)
+            else:
+                out.append(head(2 if k < len(chunks) - 1 else 3) + data)
+    if any(len(p) > mtu for p in out):
+        raise HarnessError(f'harness AVDTP sender exceeds MTU {mtu}: {max(map(len, out))}')
+    return out
+
+
+def run_avdtp_peer_case(ctx, case) -> None:
+    from bumble import avdtp
+
+    mtu = case['mtu']
+    msgs = case['msgs']
+    fault = case.get('fault') if len(msgs) >= 3 else None
+    loop = vloop.new_loop()
+    try:
+        delivered: list = []
+
+        def on_message(label, message):
+            delivered.append((label, int(message.signal_identifier), int(message.message_type), bytes(message.payload)))
+
+        assembler = avdtp.MessageAssembler(on_message)
+        labels = {'avdtp_peer:fault' if fault else 'avdtp_peer:good'}
+        nontrivial = False
+
+        def fail(sig, what):
+            ctx.fail(sig, what, case)
+
+        expected, per_msg_pdus = [], []
+        for m in msgs:
+            sid, mtype = AVDTP_KINDS[m['msg']]
+            pdus = avdtp_peer_pdus(m, mtu)
+            per_msg_pdus.append(pdus)
+            expected.append((m['label'], sid, mtype, avdtp_payload(m)))
+            if len(pdus) >= 2:
+                labels.add('avdtp_peer:fragmented')
+                nontrivial = True
+                if len(pdus[0]) == 3:
+                    labels.add('avdtp_peer:start_without_payload')
+                if any(len(p) == 2 for p in pdus[1:]):
+                    labels.add('avdtp_peer:one_byte_fragment')
+                if len(pdus[0]) < mtu or any(len(p) < mtu for p in pdus[1:-1]):
+                    labels.add('avdtp_peer:short_fragments')
+                if any(len(p) > mtu - 2 for p in pdus[1:]):
+                    labels.add('avdtp_peer:fragment_longer_than_bumble_sends')
+                if m['len'] <= mtu - 2:
+                    labels.add('avdtp_peer:fragmented_though_it_fits')
+                if len(pdus) == 255:
+                    labels.add('avdtp_peer:255_packets')
+            else:
+                labels.add('avdtp_peer:single')
+        if fault and len(per_msg_pdus[1]) < 2:
+            labels.add('avdtp_peer:fault_not_applicable')
+            fault = None
+        what_fault, situation = '', ''
+        stream = []
+        for k, pdus in enumerate(per_msg_pdus):
+            if fault and k == 1:
+                faulty, what_fault = av_apply_fault(pdus, fault, 'avdtp')
+                situation = av_situation(faulty)
+                labels.add(f'avdtp_peer:fault:{fault[0]}')
+                labels.add(f'avdtp_peer:{situation}')
+                stream.extend(faulty)
+            else:
+                stream.extend(pdus)
+        if fault:
+            nontrivial = True
+            labels.add('avdtp_peer:fragmented_after_fault' if len(per_msg_pdus[2]) >= 2 else 'avdtp_peer:single_after_fault')
+            # the good messages alone must be reassembled before the fault can be judged
+            good = [p for k, pdus in enumerate(per_msg_pdus) if k != 1 for p in pdus]
+            good_excs = _feed(assembler, good)
+            good_expected = [expected[0]] + expected[2:]
+            if delivered != good_expected:
+                _judge_av(fail, 'avdtp_peer', good_expected, list(delivered), None, '', '', good_excs, mtu)
+                fault = None
+                stream = []
+            del delivered[:]
+            assembler = avdtp.MessageAssembler(on_message)
+        if stream:
+            excs = _feed(assembler, stream)
+            _judge_av(fail, 'avdtp_peer', expected, delivered, fault, what_fault, situation, excs, mtu)
+        ctx.case(('avdtp_peer', case), nontrivial, labels,
+                 sample={'avdtp_peer': {'mtu': mtu, 'lens': [m['len'] for m in msgs],
+                                        'packets': [len(p) for p in per_msg_pdus], 'fault': fault}})
+    finally:
+        loop.shutdown()
+
+
 # -- AVCTP ---------------------------------------------------------------------------
 SPEC_LAYOUT = 'spec'
 LEGACY_LAYOUT = 'pid_in_every_packet'
@@ -1503,6 +1935,42 @@ def stream_strategy():
     ).map(build)
 
 
+def stream_multi_strategy():
+    """Histories over 1..2 streams whose INT and ACP stream end point identifiers differ (unused end points in front
+    of the used ones / crossed pairing), with operations that follow each other without a pause."""
+
+    def build(d):
+        ns = d['nstreams']
+        model, ops = ['IDLE'] * ns, []
+        for r, k, mode, sidx, fast in d['ops']:
+            s = sidx % ns
+            legal = sorted(STREAM_MODEL[model[s]])
+            name = legal[k % len(legal)] if r < 70 else STREAM_OPS[k % len(STREAM_OPS)]
+            ops.append([name, mode, s, 1 if fast else 0])
+            if name in STREAM_MODEL[model[s]]:
+                model[s] = STREAM_MODEL[model[s]][name]
+            elif name == 'start' and model[s] == 'CONFIGURED':
+                model[s] = 'STREAMING'  # (generation bias only)
+        pads = list(d['pads'])
+        if ns == 1 and pads[0] == pads[1]:
+            pads[d['ops'][0][1] % 2] += 1  # one stream: the two identifiers always differ
+        return {'kind': 'stream', 'create_stream': d['create_stream'], 'delays': d['delays'], 'nstreams': ns,
+                'pads': pads, 'cross': bool(d['cross'] and ns == 2), 'ops': ops}
+
+    op = st.tuples(st.integers(0, 99), st.integers(0, 11), st.sampled_from(['api', 'api', 'raw']), st.integers(0, 1),
+                   st.sampled_from([False, False, True]))
+    return st.fixed_dictionaries(
+        {
+            'create_stream': st.booleans(),
+            'delays': st.lists(st.sampled_from([0, 0, 0, 1, 7]), max_size=3),
+            'nstreams': st.sampled_from([1, 2, 2]),
+            'pads': st.tuples(st.integers(0, 2), st.integers(0, 2)),
+            'cross': st.booleans(),
+            'ops': st.lists(op, min_size=2, max_size=20),
+        }
+    ).map(build)
+
+
 def _codec(source: bool):
     from bumble import a2dp, avdtp
 
@@ -1528,29 +1996,42 @@ def _codec(source: bool):
 
 
 def run_stream_case(ctx, case) -> None:
+    """One history. Optional keys (absent in cases of the first build): 'pads' = [k, m]: k unused source endpoints
+    are registered on the initiator and m unused sink endpoints on the acceptor BEFORE the ones the streams
+    use, so that the INT and ACP stream end point identifiers differ; 'nstreams' = 2: two streams between the
+    two devices (operations carry the stream index as third element), 'cross': stream 0 uses the acceptor's
+    second sink and stream 1 its first; a truthy fourth element of an operation = the next operation is issued as
+    soon as this call returns (no pause; the sink is compared at the next pause)."""
     from bumble import avdtp
 
     ops = [list(o) for o in case['ops']]
+    ns = 2 if case.get('nstreams') == 2 else 1
+    src_pad, snk_pad = (list(case.get('pads') or []) + [0, 0])[:2]
+    cross = bool(case.get('cross')) and ns == 2
     loop = vloop.new_loop()
     loop.max_iterations = 2_000_000
-    state: dict = {'phase': 'setup', 'step': -1, 'model': 'IDLE', 'failed': False}
+    state: dict = {'phase': 'setup', 'step': -1, 'model': ['IDLE'] * ns, 'failed': False, 'stream': [None] * ns}
     labels: set = set()
 
     def fail(sig, what, step):
         state['failed'] = True
         ctx.fail(sig, what, dict(case, ops=ops[: step + 1]))
 
-    def states():
-        stream, sink = state.get('stream'), state.get('sink')
+    def states_of(s):
+        stream = state['stream'][s]
+        sink = state['sink'][s] if state.get('sink') else None
         src = stream.state.name if stream is not None else 'IDLE'
         snk = sink.stream.state.name if (sink is not None and sink.stream is not None) else 'IDLE'
         return src, snk
 
-    async def issue(name, mode):
+    def states():
+        return states_of(0) if ns == 1 else tuple(states_of(s) for s in range(ns))
+
+    async def issue(name, mode, s):
         """Runs one operation from the initiating side; returns None or the exception it raised."""
-        stream = state['stream']
-        remote = state['remote_sink']
-        source = state['source']
+        stream = state['stream'][s]
+        remote = state['remote_sink'][s]
+        source = state['source'][s]
         try:
             if mode == 'raw':
                 if name == 'configure':
@@ -1567,7 +2048,7 @@ def run_stream_case(ctx, case) -> None:
                     await remote.abort()
             elif name == 'configure':
                 if stream is None:
-                    state['stream'] = await state['client'].create_stream(source, remote)
+                    state['stream'][s] = await state['client'].create_stream(source, remote)
                 else:
                     await stream.configure()
             elif name == 'open':
@@ -1597,66 +2078,114 @@ def run_stream_case(ctx, case) -> None:
 
         def on_avdtp_connection(server):
             state['server'] = server
-            state['sink'] = server.add_sink(_codec(False))
+            for _ in range(snk_pad):
+                server.add_sink(_codec(False))
+            sinks = [server.add_sink(_codec(False)) for _ in range(ns)]
+            state['sink'] = sinks[::-1] if cross else sinks
 
         listener.on('connection', on_avdtp_connection)
         conn, _ = await w.connect_classic(0, 1)
         client = await avdtp.Protocol.connect(conn)
         endpoints = list(await client.discover_remote_endpoints())
-        if len(endpoints) != 1 or state.get('sink') is None:
+        if len(endpoints) != snk_pad + ns or state.get('sink') is None:
             raise HarnessError('stream set-up: sink endpoint not discovered')
-        source = client.add_source(_codec(True), None)
-        state.update(client=client, source=source, remote_sink=endpoints[0])
-        if case.get('create_stream'):
-            state['stream'] = None
-        else:
-            stream = avdtp.Stream(client, source, endpoints[0])
-            client.streams[source.seid] = stream
-            state['stream'] = stream
+        for _ in range(src_pad):
+            client.add_source(_codec(True), None)
+        sources = [client.add_source(_codec(True), None) for _ in range(ns)]
+        remotes = [next(e for e in endpoints if e.seid == state['sink'][s].seid) for s in range(ns)]
+        state.update(client=client, source=sources, remote_sink=remotes)
+        if any(sources[s].seid != remotes[s].seid for s in range(ns)):
+            labels.add('stream:seids_differ')
+        if ns == 2:
+            labels.add('stream:two_streams')
+        if not case.get('create_stream'):
+            for s in range(ns):
+                stream = avdtp.Stream(client, sources[s], remotes[s])
+                client.streams[sources[s].seid] = stream
+                state['stream'][s] = stream
         state['phase'] = 'ops'
-        for step, (name, mode) in enumerate(ops):
-            model = state['model']
+        for step, op in enumerate(ops):
+            name, mode = op[0], op[1]
+            s = (op[2] if len(op) > 2 else 0) % ns
+            model = state['model'][s]
             legal = name in STREAM_MODEL[model]
-            if state['stream'] is None and name != 'configure':
+            if state['stream'][s] is None and name != 'configure':
                 mode = 'raw'  # no Stream object yet: only the signalling command can be issued
             if legal or (name == 'abort') or (name == 'start' and model == 'CONFIGURED'):
-                mode = 'api' if state['stream'] is not None or name == 'configure' else 'raw'
+                mode = 'api' if state['stream'][s] is not None or name == 'configure' else 'raw'
             state.update(step=step, op=name, mode=mode)
-            before = states()
-            exc = await issue(name, mode)
-            await asyncio.sleep(0.2)
-            after = states()
+            before = states_of(s)
+            if ns == 2 and state['model'][1 - s] != 'IDLE':
+                labels.add('stream:op_while_other_stream_active')
+            exc = await issue(name, mode, s)
+            if len(op) > 3 and op[3] and step + 1 < len(ops):
+                # the next operation follows at once; the states are compared after it
+                labels.add('stream:no_pause_before_next_op')
+                settled = False
+            else:
+                await asyncio.sleep(0.2)
+                settled = True
+            after = states_of(s)
             state['last'] = (before, after, exc)
+            on = f' (stream {s})' if ns == 2 else ''
+
+            def others_unchanged():
+                # an operation on one stream leaves the other where the state diagram has it
+                if ns == 1 or not settled:
+                    return True
+                t = 1 - s
+                mt = state['model'][t]
+                if states_of(t) == (mt, mt):
+                    return True
+                fail(f'stream/other_stream_changed/{name}',
+                     f'{name} ({mode}) on stream {s} in state {model}: stream {t}, which the state diagram has in {mt}, '
+                     f'is now source {states_of(t)[0]}, sink {states_of(t)[1]}', step)
+                return False
+
             if legal:
                 labels.add(f'stream:{model}->{name}')
                 want = STREAM_MODEL[model][name]
                 if exc is not None:
                     fail(f'stream/legal_refused/{name}',
-                         f'{name} in state {model} raised {type(exc).__name__}({exc}); states source/sink = {after}', step)
+                         f'{name} in state {model}{on} raised {type(exc).__name__}({exc}); states source/sink = {after}', step)
                     return
-                if after != (want, want):
+                if (after if settled else after[:1]) != ((want, want) if settled else (want,)):
                     fail(f'stream/state_mismatch/{name}',
-                         f'after {name} in state {model}: source {after[0]}, sink {after[1]}, state diagram says {want}', step)
+                         f'after {name} in state {model}{on}: source {after[0]}, sink {after[1]}, state diagram says {want}', step)
                     return
-                state['model'] = want
+                state['model'][s] = want
                 state['transitions'] = state.get('transitions', 0) + 1
+                if not others_unchanged():
+                    return
                 continue
             # open cases: both behaviours accepted
             if name == 'start' and model == 'CONFIGURED':
                 labels.add('stream:start_in_configured')
+                if not settled:
+                    await asyncio.sleep(0.2)
+                    settled, after = True, states_of(s)
                 if exc is None and after == ('STREAMING', 'STREAMING'):
-                    state['model'] = 'STREAMING'
+                    state['model'][s] = 'STREAMING'
+                    if not others_unchanged():
+                        return
                     continue
                 if exc is not None and after == (model, model):
+                    if not others_unchanged():
+                        return
                     continue
                 fail('stream/state_mismatch/start',
-                     f'start in CONFIGURED (auto-open or refusal allowed): raised {exc!r}, source {after[0]}, sink {after[1]}', step)
+                     f'start in CONFIGURED{on} (auto-open or refusal allowed): raised {exc!r}, source {after[0]}, sink {after[1]}', step)
                 return
             if name == 'abort' and model == 'IDLE':
                 labels.add('stream:abort_in_idle')
+                if not settled:
+                    await asyncio.sleep(0.2)
+                    settled, after = True, states_of(s)
                 if after == ('IDLE', 'IDLE'):
+                    if not others_unchanged():
+                        return
                     continue
-                fail('stream/state_mismatch/abort', f'abort in IDLE left source {after[0]}, sink {after[1]}', step)
+                fail('stream/state_mismatch/abort', f'abort in IDLE{on} left source {after[0]}, sink {after[1]}', step)
                 return
             # illegal operation
             labels.add('stream:illegal_op')
@@ -1664,11 +2193,13 @@ def run_stream_case(ctx, case) -> None:
             state['illegal'] = state.get('illegal', 0) + 1
             if exc is None:
                 fail(f'stream/illegal_accepted/{name}/{mode}',
-                     f'{name} ({mode}) in state {model} was not refused; states source/sink {before} -> {after}', step)
+                     f'{name} ({mode}) in state {model}{on} was not refused; states source/sink {before} -> {after}', step)
                 return
-            if after != (model, model):
+            if (after if settled else after[:1]) != ((model, model) if settled else (model,)):
                 fail(f'stream/illegal_changed_state/{name}/{mode}',
-                     f'refused {name} ({mode}) in state {model} changed the states: source {after[0]}, sink {after[1]}', step)
+                     f'refused {name} ({mode}) in state {model}{on} changed the states: source {after[0]}, sink {after[1]}', step)
+                return
+            if not others_unchanged():
                 return
         state['phase'] = 'done'
 
@@ -1726,9 +2257,14 @@ def run(ctx) -> None:
     layout = avctp_probe(ctx)
     ctx.extra['avctp_sender_layout'] = layout
     ctx.hyp('sdp', lambda d: run_sdp_case(ctx, sdp_finalize(d)), sdp_strategy(), max_examples=ctx.n(400, 8000))
+    ctx.hyp('sdp_history', lambda d: run_sdp_case(ctx, sdp_finalize(d)), sdp_strategy(history=True),
+            max_examples=ctx.n(160, 8000))
+    ctx.hyp('sdp_handles', lambda c: run_sdp_case(ctx, c), sdp_handles_strategy(), max_examples=ctx.n(60, 3000))
     ctx.hyp('avdtp', lambda c: run_avdtp_case(ctx, c), av_strategy('avdtp'), max_examples=ctx.n(2000, 150000))
     ctx.hyp('avctp', lambda c: run_avctp_case(ctx, dict(c, layout=layout)), av_strategy('avctp'), max_examples=ctx.n(2000, 150000))
+    ctx.hyp('avdtp_peer', lambda c: run_avdtp_peer_case(ctx, c), av_strategy('avdtp_peer'), max_examples=ctx.n(1000, 150000))
     ctx.hyp('stream', lambda c: run_stream_case(ctx, c), stream_strategy(), max_examples=ctx.n(300, 5000))
+    ctx.hyp('stream_multi', lambda c: run_stream_case(ctx, c), stream_multi_strategy(), max_examples=ctx.n(150, 5000))
     for label, n in (
         ('sdp:clients:1', 20), ('sdp:clients:2', 10), ('sdp:clients:3', 10), ('sdp:late_joiner', 20),
         ('sdp:continuation', 20), ('sdp:ss_continuation', 3), ('sdp:ga_continuation', 5), ('sdp:sa_continuation', 5),
@@ -1743,9 +2279,26 @@ def run(ctx) -> None:
         ('stream:illegal_op', 20), ('stream:illegal_raw', 10), ('stream:second_cycle', 5),
     ):
         ctx.floor(label, n)
+    for label, n in (
+        # extensions: histories, record counts, the peer's AVDTP sender, several streams / differing SEIDs
+        ('sdp:history', 40), ('sdp:reopen', 20), ('sdp:rejoin', 5), ('sdp:leave_close', 10), ('sdp:leave_drop', 10),
+        ('sdp:peer_left_mid_continuation', 5), ('sdp:peer_reopened_mid_continuation', 3),
+        ('sdp:abandoned_mid_continuation', 5), ('sdp:query_after_abandoned_same_channel', 8),
+        ('sdp:more_than_12_records', 15), ('sdp:ss_3plus_responses', 10), ('sdp:ss_handles_at_capacity_multiple', 10),
+        ('sdp:ss_at_continuation_limit', 1),
+        ('avdtp_peer:fragmented', 100), ('avdtp_peer:start_without_payload', 20), ('avdtp_peer:one_byte_fragment', 20),
+        ('avdtp_peer:short_fragments', 50), ('avdtp_peer:fragment_longer_than_bumble_sends', 50),
+        ('avdtp_peer:fragmented_though_it_fits', 20), ('avdtp_peer:fragmented_after_fault', 20),
+        ('avdtp_peer:single_after_fault', 20), ('avdtp_peer:start_inside_unfinished', 10),
+        ('avdtp_peer:after_stray_fragment', 10),
+        ('stream:seids_differ', 30), ('stream:two_streams', 30), ('stream:op_while_other_stream_active', 20),
+        ('stream:no_pause_before_next_op', 20),
+    ):
+        ctx.floor(label, n)
     for f in FAULTS:
         ctx.floor(f'avdtp:fault:{f}', 5)
         ctx.floor(f'avctp:fault:{f}', 5)
+        ctx.floor(f'avdtp_peer:fault:{f}', 3)
     for s, ops in STREAM_MODEL.items():
         for op in ops:
             ctx.floor(f'stream:{s}->{op}', 3)
@@ -1759,6 +2312,8 @@ def replay(ctx, case) -> None:
         run_avdtp_case(ctx, case)
     elif kind == 'avctp':
         run_avctp_case(ctx, case)
+    elif kind == 'avdtp_peer':
+        run_avdtp_peer_case(ctx, case)
     elif kind == 'stream':
         run_stream_case(ctx, case)
     else:
